@@ -4,7 +4,8 @@
 # usage: tools/replay_seeds.sh [ids...]   (default: all)    output: seeded/REPLAY_RESULTS.txt
 # GEN_ONLY=1 switches the saved regression cases off (VERIF_NO_REGRESSIONS), so the verdict says what the generators find on
 # their own at VERIF_SEED (default 1); output then goes to seeded/REPLAY_RESULTS_generators_only.txt
-cd /verif || exit 2
+HERE="$(cd "$(dirname "$0")/.." && pwd)"
+cd "$HERE" || exit 2
 WT=/tmp/seedcheck_$$
 git -C /repo worktree add -q --detach "$WT" HEAD || exit 2
 OUT=seeded/REPLAY_RESULTS.txt
@@ -14,10 +15,10 @@ IDS="$*"
 [ -z "$IDS" ] && IDS=$(ls seeded | grep '^C[0-9]' | sort)
 for d in $IDS; do
   git -C "$WT" checkout -q -- . && git -C "$WT" clean -fdq
-  git -C "$WT" apply "/verif/seeded/$d/patch.diff" || { echo "$d patch-does-not-apply" >> "$OUT"; continue; }
+  git -C "$WT" apply "$HERE/seeded/$d/patch.diff" || { echo "$d patch-does-not-apply" >> "$OUT"; continue; }
   prop=$(echo "$d" | cut -c1-3)
   checks="$prop"
-  case "$d" in C13b|C07c|C08d|C11d|C01e|C02e|C01f|C04f|C09f) checks="C03";; C11e) checks="C20";; C07b) checks="C07 C03";; esac
+  case "$d" in C13b|C07c|C08d|C11d|C01e|C02e|C01f|C04f|C09f|C07g) checks="C03";; C11e) checks="C20";; C07b) checks="C07 C03";; C05g) checks="C05 C03";; esac
   for c in $checks; do
     VERIF_REPO="$WT" ./check "$c" --tier quick > /tmp/replay_$$.log 2>&1; rc=$?
     b=$(grep -v KNOWN-FINDING /tmp/replay_$$.log | grep -m1 "bucket=" | sed 's/detail=.*//' | cut -c1-120)
